@@ -659,6 +659,19 @@ class Predicate(metaclass=abc.ABCMeta):
         involving exactly one and only table.
         """
 
+        @staticmethod
+        def primitive(predicate: 'dsl.Predicate') -> bool:
+            """Check all the fields of the predicate - the elements of any references included - belong to
+            a single table.
+
+            Args:
+                predicate: Predicate to be checked.
+
+            Returns:
+                True if the predicate involves exactly one and only table.
+            """
+            return len({f.origin for f in Element.dissect(predicate)}) == 1 and bool(Column.dissect(predicate))
+
         def __init__(self, *predicates: 'dsl.Predicate'):
             items = {p: {f.origin for f in Column.dissect(p)} for p in predicates}
             if collections.Counter(len(s) == 1 for s in items.values())[True] != len(predicates):
@@ -785,7 +798,7 @@ class Not(Logical, Prefix):
     @property
     def factors(self: 'Not') -> 'dsl.Predicate.Factors':
         # the negation of a predicate over a single table is itself the (only) factor - never the un-negated operand
-        return Predicate.Factors(self) if len({f.origin for f in Column.dissect(self)}) == 1 else Predicate.Factors()
+        return Predicate.Factors(self) if Predicate.Factors.primitive(self) else Predicate.Factors()
 
 
 class Comparison(Predicate):
@@ -839,7 +852,7 @@ class Comparison(Predicate):
 
     @functools.cached_property
     def factors(self: 'Comparison') -> 'dsl.Predicate.Factors':
-        return Predicate.Factors(self) if len({f.origin for f in Column.dissect(self)}) == 1 else Predicate.Factors()
+        return Predicate.Factors(self) if Predicate.Factors.primitive(self) else Predicate.Factors()
 
 
 class LessThan(Comparison, Infix):
